@@ -262,6 +262,22 @@ static void compare_snapshot(hist_t *h, int rejected)
         for (int i = 0; i < h->nslot; i++) if (h->s[i].msg && memcmp(h->s[i].msg, h->s[i].msg_copy, h->s[i].msglen)) viol(h, "C11", "reject-changed-buffer", "rejected submit changed a data buffer (c%d)", i);
 }
 
+/* after every call: what an application sees through the public accessor macros must agree with the job model for every context */
+static void macro_sweep(hist_t *h)
+{
+        const halg_t *a = h->cfg->a;
+        for (int i = 0; i < h->nslot; i++) {
+                slot_t *s = &h->s[i];
+                int cm = a->ctx_view(s->ctx, 0), pr = a->ctx_view(s->ctx, 1);
+                int want_c = s->st == ST_COMPLETE || s->st == ST_FRESH, want_p = s->st == ST_INFLIGHT;
+                if (cm != want_c || pr != want_p) {
+                        viol(h, "C06", "accessor-macros", "context c%d: isal_hash_ctx_complete() = %d, isal_hash_ctx_processing() = %d, but the job model has it %s (status word %d)", i, cm, pr,
+                             s->st == ST_INFLIGHT ? "in flight" : s->st == ST_IDLE ? "idle between segments" : s->st == ST_COMPLETE ? "complete" : "fresh", a->ctx_view(s->ctx, 2));
+                        return;
+                }
+        }
+        out_count("accessor_macro_sweeps", 1);
+}
 static int inject_reject(hist_t *h)
 {
         const hcfg_t *c = h->cfg; const halg_t *a = c->a; rng_t *r = &h->r;
@@ -485,6 +501,7 @@ static void run_history(const hcfg_t *cfg, uint64_t case_seed, hres_t *res, uint
         if (rng_below(r, 60) == 0) nops = 1500 + (int) rng_below(r, 2500);     /* occasionally a long life of one manager and its contexts */
         int bad = 0;
         for (int step = 0; step < nops && !bad; step++) {
+                macro_sweep(h);
                 uint32_t w = rng_below(r, 100);
                 if (h->ninflight > 0 && rng_below(r, 150) == 0) {
                         /* the application gives up on the jobs in flight: the manager is initialised again and every abandoned context is
